@@ -248,6 +248,22 @@ func TestVerifC33MutatedFlight13(t *testing.T) {
 				}
 			}
 		}
+		if !s.HRR && len(o.Shares) > 0 && rapid.IntRange(0, 4).Draw(rt, "share_len") == 0 {
+			// a ServerHello key_share for a group the client sent a share for, with a key_exchange of the wrong length
+			// (well-formed otherwise: the length prefix matches)
+			var cands []uint16
+			for _, g := range o.Shares {
+				if !vfIsGREASE(g) {
+					cands = append(cands, g)
+				}
+			}
+			if len(cands) > 0 {
+				s.Group = cands[rapid.IntRange(0, len(cands)-1).Draw(rt, "share_group")]
+				s.ShareLen = rapid.SampledFrom([]int{0, 1, 31, 32, 33, 64, 65, 66, 97, 133, 1087, 1088, 1089, 1119, 1120, 1121, 1216, 2000}).Draw(rt, "share_bytes")
+				s.ShareLenSet = true
+				st.Class("serverhello-key-share-length-drawn")
+			}
+		}
 		if len(o.ALPN) > 0 && rapid.Bool().Draw(rt, "alpn") {
 			a := o.ALPN[0]
 			s.ALPN = &a
